@@ -577,10 +577,12 @@ func realMain() {
 	// for the next exec only, whatever that exec's fate; the output buffers belong
 	// to the most recent exec
 	for _, cfg := range []config{def, coe} {
-		for _, mid := range []string{"exec hexit 0", "exec hexit 3", "! exec hexit 3", "! exec hexit 0", "exec hecho out err", "! exec hecho out err", "exec hcat", "hexit 0", "! hexit 3", "exec hexit 0 &", "! exec hexit 3 &n&"} {
+		for _, mid := range []string{"exec hexit 0", "exec hexit 3", "! exec hexit 3", "! exec hexit 0", "exec hecho out err", "! exec hecho out err", "exec hcat", "hexit 0", "! hexit 3", "exec hexit 0 &", "! exec hexit 3 &n&", "wait", "exec hecho bg1 bg2 &", "kill"} {
 			for _, obs := range []string{"stdout x", "! stdout .", "cmp stdout f", "stdout out", "! stderr ."} {
 				cases = append(cases, scase{Cfg: cfg, Lines: []string{"stdin f", mid, "exec hcat", obs}})
 				cases = append(cases, scase{Cfg: cfg, Lines: []string{"exec hecho out err", mid, obs}})
+				cases = append(cases, scase{Cfg: cfg, Lines: []string{"exec hecho out err", mid, "wait", obs}})
+				cases = append(cases, scase{Cfg: cfg, Lines: []string{"exec hecho out err &n&", "wait n", "exec hecho out err", mid, "wait", obs}})
 			}
 		}
 	}
